@@ -327,6 +327,6 @@ def read (p : Params) (s : St) : Res (List UInt8 × St) :=
             (Ring.copyLoop p.ringSize count start s.ring s.pos []) >>= fun r =>
             .ok (r.2.2.reverse, { s with bits := o.2, ring := r.1, pos := r.2.1 })
 
-def dec (p : Params) : Dec := { σ := St, init := init p, read := read p }
+def dec (p : Params) : Dec := { σ := St, init := init p, read := read p, src := fun s => s.bits.src }
 
 end LhasaV.LhNew
